@@ -413,7 +413,7 @@ CONTRACTS.update({
     },
     'Position_makeMove': {
         'requires': [_SELF, 'NN_OK(self)', '__CPROVER_is_fresh(move, sizeof(*move))', '__CPROVER_is_fresh(ui, sizeof(*ui))', _TABLES, _G,
-                     'castle_tbl_ok()', 'epmask_ok()', 'wf(self)', 'mv_shape(self, move)', 'same_all(self, &ghost_pos0)', 'MTRL_RANGE_TIGHT', 'ghost_dh == 0'],
+                     'castle_tbl_ok()', 'epmask_ok()', 'wf(self)', 'mv_shape(self, move)', 'same_all(self, &ghost_pos0)', 'MTRL_RANGE_TIGHT', 'ghost_dh == 0', 'MM_CASE(self, move)'],
         'assigns': _FRAME_ALL + ['*ui', 'ghost_dh'],
         # makeMove toggles the side-to-move key first and the side flag last: in between the hash differs from the
         # from-scratch value by whiteHashKey; the ghost discrepancy follows that (ghost code only)
@@ -461,6 +461,12 @@ CONTRACTS.update({
 })
 
 SPEC += r"""
+/* complete case split of the makeMove proof on the kind of the moving piece (6 cases, each a separate run; without CASE_MM: one query) */
+#ifdef CASE_MM
+#define MM_CASE(p, m) ((((p)->squares[(m)->from_] - 1) % 6) == CASE_MM)
+#else
+#define MM_CASE(p, m) 1
+#endif
 /* material configurations that legal play can produce: per side at most 16 men, one king,
    pawns + promoted pieces <= 8 */
 struct Counts { int c[13]; };
@@ -582,7 +588,7 @@ GROUPS = [
     Group('setCastleMask', 'h_setCastleMask', enforce='Position_setCastleMask', min_props=5),
     Group('setEpSquare', 'h_setEpSquare', enforce='Position_setEpSquare', min_props=5),
     Group('staticInitialize', 'h_staticInitialize', enforce='Position_staticInitialize', min_props=5),
-    Group('makeMove', 'h_makeMove', enforce='Position_makeMove', replace=_MUT + _NN, min_props=30, timeout=7200),
+    Group('makeMove', 'h_makeMove', enforce='Position_makeMove', replace=_MUT + _NN, min_props=30, timeout=7200, cases=('case', [('CASE_MM=%d' % k,) for k in range(6)])),
     Group('make_unmake', 'h_make_unmake', replace=_MUT + _NN + ('BitBoard_firstSquare',), min_props=30, timeout=10800, tier='thorough'),
     Group('make_unmake_split', 'h_make_unmake', replace=_MUT + _NN + ('BitBoard_firstSquare',), min_props=30, timeout=7200, tier='thorough',   # 6 cases of 7-8 min in parallel (was in the quick tier: too slow for a check run on every change)
           cases=('case', [('CASE_MU=%d' % k,) for k in range(6)])),
